@@ -513,8 +513,14 @@ func (g *gen) sigCandidates(sk *big.Int, msg []byte) []cand {
 	r := g.r
 	honest := groupsig.Sign(seckeyOf(sk), msg)
 	hb := honest.Serialize()
-	hp, _ := ptOf(hx.Hex(hb))
-	cs := []cand{{"honest", hb}}
+	// the algebraically related candidates are built from the REFERENCE point sk·H(m), so that a
+	// defect in Sign / the hash path cannot crash or blind the generator
+	refPt := func(m []byte, k *big.Int) *bn.G1 { return new(bn.G1).ScalarMult(refG1(m), k) }
+	hp := refPt(msg, sk)
+	if len(hb) != 64 {
+		hb = hp.Marshal()
+	}
+	cs := []cand{{"honest", honest.Serialize()}}
 	add := func(c string, b []byte) {
 		if b != nil {
 			cs = append(cs, cand{c, b})
@@ -556,12 +562,12 @@ func (g *gen) sigCandidates(sk *big.Int, msg []byte) []cand {
 	add("0-p", append(make([]byte, 32), pad32(bigP)...))
 	// algebraically related
 	add("neg", new(bn.G1).Neg(hp).Marshal())
-	hp2, _ := ptOf(hx.Hex(hb))
+	hp2 := refPt(msg, sk)
 	add("double", new(bn.G1).Add(hp, hp2).Marshal())
 	other := groupsig.Sign(seckeyOf(sk), append(append([]byte{}, msg...), 1))
 	ob := other.Serialize()
 	add("other-msg", ob)
-	op, _ := ptOf(hx.Hex(ob))
+	op := refPt(append(append([]byte{}, msg...), 1), sk)
 	add("sum", new(bn.G1).Add(hp, op).Marshal())
 	sk2 := new(big.Int).Add(sk, big.NewInt(1))
 	sk2.Mod(sk2, bigR)
